@@ -83,9 +83,29 @@ def segment_lookup(chk, F, rule, cfg):
                 return ('pred', op, off)
         return None
 
+    def key_extractor(cv, keyarg):
+        """|r| r.response_index  with key &k  ->  ('cmp', 'elem', 0)"""
+        c = strip(cv)
+        if c[0] == 'ref' and len(c) > 3:
+            c = strip(c[3])
+        if not (c[0] == 'agg' and c[1] == 'closure'):
+            return None
+        cf = F.fns[c[2]]
+        chk.analysed(cf)
+        ps = symex.Interp(F).run(cf)
+        if len(ps) != 1 or ps[0].outcome[0] != 'return' or list(cf.calls()):
+            return None
+        v = strip(ps[0].outcome[1])
+        root, ns = field_path(v)
+        k = strip(keyarg)
+        k = strip(k[3]) if k[0] == 'ref' and len(k) > 3 else k
+        if ns[-1:] == ['response_index'] and root == ('param', 0, 2) and k == K:
+            return ('cmp', 'elem', 0)
+        return None
+
     recognised = False
     for p in paths:
-        bs = list(p.calls(r'<impl \[T\]>::binary_search_by$'))
+        bs = list(p.calls(r'<impl \[T\]>::binary_search_by(_key)?$'))
         pp = list(p.calls(r'<impl \[T\]>::partition_point$'))
         if bs:
             recognised = True
@@ -114,9 +134,13 @@ def segment_lookup(chk, F, rule, cfg):
                 for e in x[1][1]:
                     if e[0] == 'idx':
                         idx = e[1]
-        bs = list(p.calls(r'<impl \[T\]>::binary_search_by$'))
+        bs = list(p.calls(r'<impl \[T\]>::binary_search_by(_key)?$'))
         if len(bs) == 1 and idx is not None:
-            cmpf = comparator(bs[0].data[2][1])
+            if bs[0].data[1].endswith('_key'):
+                # binary_search_by_key(&k, |r| key(r)) is std's binary_search_by(|r| key(r).cmp(&k))
+                cmpf = key_extractor(bs[0].data[2][2], bs[0].data[2][1])
+            else:
+                cmpf = comparator(bs[0].data[2][1])
             ok_src = strip(bs[0].data[2][0]) in (LIST, ('ref', (('ptr', LIST), ()), False)) or field_path(bs[0].data[2][0])[0] == LIST
             res = ('call', bs[0].data[1], bs[0].data[2], bs[0].data[3])
             lin = linear(idx)
@@ -124,7 +148,7 @@ def segment_lookup(chk, F, rule, cfg):
             arm = None
             for d in p.decisions:
                 a = E.discr_atom(F, d)
-                if a and is_call(a[0], r'binary_search_by$'):
+                if a and is_call(a[0], r'binary_search_by(_key)?$'):
                     arm = a[2]
             if cmpf is None or cmpf[0] != 'cmp' or arm is None or lin is None or len(lin[0]) != 1:
                 chk.ob(rule, 'binary_search_by idiom is in normal form', False, config=cfg, fn=fn, site='bsearch', unrecognised=True, what='bsearch shape', found={'cmp': cmpf, 'arm': arm, 'idx': show(idx)})
